@@ -122,13 +122,62 @@ def vacuum_event(c):
     return ev
 
 
+HISTORY_PROBE = r"""
+import sys, json, warnings
+import numpy as np
+warnings.simplefilter("ignore")
+sys.path.insert(0, sys.argv[1])
+import abtem
+from abtem.multislice import RealSpaceMultislice
+abtem.config.set({"diagnostics.task_progress": False, "diagnostics.progress_bar": False})
+n, d = (24, 20), (0.2, 0.25)
+def run():
+    vac = abtem.PotentialArray(np.zeros((2,) + n, np.float32), slice_thickness=[1.0, 2.0], sampling=d)
+    g = np.random.default_rng(1)
+    X = np.fft.fft2(g.normal(size=n) + 1j * g.normal(size=n))
+    kx, ky = np.fft.fftfreq(n[0], d[0]), np.fft.fftfreq(n[1], d[1])
+    k = np.sqrt(kx[:, None] ** 2 + ky[None] ** 2)
+    X[k > 0.8 * min(np.abs(kx).max(), np.abs(ky).max())] = 0          # between the shipped (2/3) and the wide (0.9) aperture
+    w = abtem.Waves(np.fft.ifft2(X).astype(np.complex64), energy=100e3, sampling=d)
+    return np.asarray(w.multislice(vac, algorithm=RealSpaceMultislice(order=1, derivative_accuracy=6)).array)
+if sys.argv[2] == "after_default":
+    run()                                   # the same grid and energy under the shipped configuration first
+with abtem.config.set({"antialias.cutoff": 0.9, "antialias.taper": 0.02}):
+    out = run()
+print(json.dumps([out.real.tolist(), out.imag.tolist()]))
+"""
+
+
+def history_event():
+    """process histories: a real-space run under a configured (wider) antialias aperture gives the same waves whether or not a run on
+    the same grid and energy under the shipped configuration happened earlier in the process (two fresh interpreter processes)"""
+    import os, subprocess, sys
+    ev = {"k": "vacuum", "case": {"k": "vacuum", "history": "antialias_configuration_changed_between_runs"}, "raised": False, "intensity_ppb": 0,
+          "lazy_ppb": 0, "repeat_ppb": 0}
+    try:
+        outs = {}
+        for mode in ("fresh", "after_default"):
+            p = subprocess.run([sys.executable, "-c", HISTORY_PROBE, os.environ.get("ABTEM_REPO", "/repo"), mode], capture_output=True, text=True, timeout=900)
+            if p.returncode != 0:
+                raise RuntimeError(p.stderr[-300:])
+            re_, im_ = json.loads(p.stdout.strip().splitlines()[-1])
+            outs[mode] = np.array(re_) + 1j * np.array(im_)
+        ev["repeat_ppb"] = ppb(relerr(outs["after_default"], outs["fresh"]))
+    except Exception as ex:
+        ev["raised"] = True
+        ev["exc"] = f"{type(ex).__name__}: {ex}"[:300]
+    return ev
+
+
 def observe(c):
+    if c.get("history"):
+        return history_event()
     return {"stencil": stencil_event, "eigen": eigen_event, "vacuum": vacuum_event}[c["k"]](c)
 
 
 def tags_for(ev, clauses):
     c = ev["case"]
-    sp = {"stencil": ST_SPACINGS, "eigen": EI_SPACINGS, "vacuum": VA_SPACINGS}[c["k"]][c["spacing"]]
+    sp = {"stencil": ST_SPACINGS, "eigen": EI_SPACINGS, "vacuum": VA_SPACINGS}[c["k"]][c["spacing"]] if "spacing" in c else (1, 1)
     return {"clauses": sorted(clauses), "k": c["k"], "square_sampling": sp[0] == sp[1]}
 
 
@@ -197,6 +246,8 @@ def run(ctx: Ctx):
     for c in cases:
         evs.append(observe(c))
         ctx.case(json.dumps(c, sort_keys=True))
+    evs.append(history_event())
+    ctx.case("process history: antialias configuration changed between two real-space runs on one grid")
     ctx.notes["events"] = {k: sum(1 for e in evs if e["k"] == k) for k in ("stencil", "eigen", "vacuum")}
     for e in evs[:1] + evs[-1:]:
         ctx.sample({k: (v if k != "op" else v[:6]) for k, v in e.items()})
